@@ -30,8 +30,8 @@ class Prop(PropBase):
     id = "C16"
     lean_targets = ["PbProps.C16"]
     theorems = ["Pb.C16." + t for t in ("C16_class_table", "C16_construct_inv", "C16_errors_are_value_errors",
-                                        "C16_reject", "C16_like_faithful")]
-    trusted_base = ["PbModel/Contract.lean (hand model) + Gen/Classes.lean, Gen/Align.lean (translator output)",
+                                        "C16_reject", "C16_like_faithful", "C16_ctor_forwards")]
+    trusted_base = ["PbModel/Contract.lean (hand model) + Gen/Classes.lean, Gen/Align.lean, Gen/Ctor.lean (translator output)",
                     "numpy safe-cast relation measured per request; astropy validation of Quantity/Time inside setters"]
     assumptions = []
     rule = ("constructor fuzz: 6 classes x NumPy/Dask x shapes of rank 0..4 (incl. zero-size and wrong fixed axes) x 13 dtypes x "
